@@ -312,11 +312,26 @@ func ruleIntegralVariants(w *World, r *RuleResult) {
 			continue
 		}
 		key := spec.fn + " | ±1 adjustment guard"
+		modf := w.callsTo(f, "(*Decimal).Modf")
+		if len(modf) == 0 {
+			// the split into integral and fractional part is not made here (the operation delegates to a
+			// shared helper that chooses the direction at run time): this shape is not decided
+			r.ok(key, w.pos(f.Pos()), "delegates to a helper: the guard is not decided for this shape", false)
+			continue
+		}
+		fracOf := func(v ssa.Value) bool {
+			for _, m := range modf {
+				if len(m.Common().Args) == 3 && basePtr(m.Common().Args[2]) == basePtr(v) {
+					return true
+				}
+			}
+			return false
+		}
 		cs := w.callsTo(f, spec.op)
 		ok := false
 		why := "no call of " + spec.op
 		for _, c := range cs {
-			why = "the adjustment is not guarded by frac.Sign() " + spec.cmp.String() + " 0 with the constant one"
+			why = "the adjustment is not guarded by (fractional part of Modf).Sign() " + spec.cmp.String() + " 0 with the constant one"
 			p := w.newProv(f, nil)
 			one := false
 			for _, l := range p.roots(c.Common().Args[3]) {
@@ -331,7 +346,7 @@ func ruleIntegralVariants(w *World, r *RuleResult) {
 				}
 				call, isC := bo.X.(*ssa.Call)
 				k, isK := bo.Y.(*ssa.Const)
-				if isC && isK && ci(k) == 0 && w.calleeName(call) == "(*Decimal).Sign" && strings.Contains(w.exprOf(f, call.Common().Args[0]).String(), "frac") && one {
+				if isC && isK && ci(k) == 0 && w.calleeName(call) == "(*Decimal).Sign" && fracOf(call.Common().Args[0]) && one {
 					ok = true
 				}
 			}
